@@ -196,6 +196,11 @@ def classify(before, after, res_before, res_after, compress=False):
         # clause; with the repair C19-compressed-empty-inner the probe is true and the comparison is exact)
         before = dict(before, settings_log={k: prune(v) for k, v in before["settings_log"].items()})
         after = dict(after, settings_log={k: prune(v) for k, v in after["settings_log"].items()})
+    if compress and not KEEPS_EMPTY_MANAGERS[0]:
+        # same for the results of a step: a manager without any value ({"nosuch": {}}: named in the session, not registered) has
+        # no column (named partial clause; exact with the repair C19-compressed-empty-manager)
+        before = dict(before, results_log={k: prune(v) for k, v in before["results_log"].items()})
+        after = dict(after, results_log={k: prune(v) for k, v in after["results_log"].items()})
     kb, ka = list(before["results_log"]), list(after["results_log"])
     if kb != ka:
         return ("step-keys-not-restored", f"results_log steps before {kb} after {ka}")
@@ -341,6 +346,7 @@ def model_lines(inst, raw_before, log, raw_after, res_after, compress, filestate
 PK_STATS = {"files": 0, "files_with_backrefs": 0, "backrefs": 0}
 SAVES_AFTER_EVERY_STEP_REQUEST = [True]                   # probed: every step-advancing request is followed by a write of the instance
 SAVE_STATE_SKIPS_SESSIONLESS = [False]                    # probed: GET /save-state works while an instance has no session yet
+KEEPS_EMPTY_MANAGERS = [False]                           # probed: the compressed format keeps {"nosuch": {}} in a step's results
 KEEPS_EMPTY_INNER = [False]                               # probed: the compressed format keeps {"smA": {}} (else compared up to those)
 
 
@@ -656,6 +662,9 @@ def gen_case(rng, quick):
                 inst["steps"] = [{"k": "multi", "n": total, "settings": shared_settings(rng, inst["sms"], inst["scs"])}]
             elif not inst["steps"]:
                 inst["steps"] = [{"k": "empty"}]
+    for inst in insts:
+        if rng.chance(1, 4):
+            inst["sms"] = inst["sms"] + ["nosuch"]        # a manager named in the session that is not registered: {} in every step's results
     return {"spec": spec, "compress": rng.chance(2, 3), "instances": insts, "idle": rng.chance(1, 3)}
 
 
@@ -719,11 +728,18 @@ def exhaustive_cases(quick):
     for n in range(1, L + 1):
         letters = range(4) if n > (2 if quick else 3) else range(len(alpha))
         for seq in itertools.product(letters, repeat=n):
-            for compress in (True, False):
+            for compress in ((True, False) if not quick or n == 1 else (sum(seq) % 2 == 0,)):
                 out.append({"spec": {"start": 2.0, "dt": 0.5, "stop": 12.0}, "compress": compress,
                             "instances": [{"sms": ["smA"], "scs": ["a", "b"], "eqs": ["s", "c"],
                                            "steps": [copy.deepcopy(alpha[i]) for i in seq], "extra": [{"k": "empty"}]}]})
     mixed = [alpha[2], alpha[0], alpha[3], alpha[1], alpha[6], alpha[7]]
+    # labels whose order as text differs from their order as numbers (9.0 < 10.0, -2.0 < -1.0, 99.5 < 100.0), and a session
+    # that names a manager which is not registered
+    for start, dt in ((9.0, 1.0), (9.0, 0.5), (-2.0, 1.0), (99.0, 0.5), (5.0, 1.0)):
+        for compress in (True, False):
+            out.append({"spec": {"start": start, "dt": dt, "stop": start + 20 * dt}, "compress": compress,
+                        "instances": [{"sms": ["smA", "nosuch"], "scs": ["a"], "eqs": ["s", "g"],
+                                       "steps": copy.deepcopy([alpha[0], alpha[2], alpha[4], alpha[3], alpha[1], alpha[2]]), "extra": [copy.deepcopy(alpha[4])]}]})
     for starts, dts in ((STARTS, DTS), (STARTS10, DTS10)):
         for start in starts:
             for dt in dts:
@@ -797,6 +813,15 @@ def probe(base):
     except Exception:
         facts["compressionKeepsEmptyInner"] = False
     KEEPS_EMPTY_INNER[0] = facts["compressionKeepsEmptyInner"]
+    try:
+        rl = {2.0: {"smA": {"a": {"s": {2.0: 1.0}}}, "nosuch": {}}, 2.5: {"smA": {"a": {"s": {2.5: 2.0}}}, "nosuch": {}}}
+        back = sc.decompress_results(json.loads(json.dumps(sc.compress_results(copy.deepcopy(rl)))))
+        facts["compressionKeepsEmptyManagers"] = [v for v in back.values()] == [{"smA": {"a": {"s": {str(k): x["smA"]["a"]["s"][k]}}}, "nosuch": {}}
+                                                                                for k, x in rl.items()] or \
+            [sorted(v) for v in back.values()] == [sorted(x) for x in rl.values()]
+    except Exception:
+        facts["compressionKeepsEmptyManagers"] = False
+    KEEPS_EMPTY_MANAGERS[0] = facts["compressionKeepsEmptyManagers"]
     # wave 2 -- whole-server save while one instance has not begun a session
     idle = {"spec": {"start": 2.0, "dt": 0.5, "stop": 8.0}, "compress": False, "idle": True,
             "instances": [{"sms": ["smA"], "scs": ["a"], "eqs": ["s"], "steps": [{"k": "empty"}], "extra": []}]}
@@ -1022,13 +1047,13 @@ def _run(chk, base):
     cases = exhaustive_cases(chk.quick) + several_sessions_cases(chk.quick)
     n_exh = len(cases)
     rng = chk.rng.fork("c19-random")
-    for _ in range(40 if chk.quick else 600):
+    for _ in range(32 if chk.quick else 600):
         cases.append(gen_case(rng, chk.quick))
     chk.cov["exhaustive_cases"] = n_exh
     req, exp, owners = [], [], []
     viol_by_key = {}
     dist = {"set": 0, "empty": 0, "nobody": 0, "multi": 0, "lib": 0, "stream": 0, "several_sessions": 0, "same_clock_as_last_write": 0, "compressed": 0, "plain": 0, "instances": {1: 0, 2: 0, 3: 0},
-            "non_dyadic": 0, "non_normal_settings": 0}
+            "non_dyadic": 0, "non_normal_settings": 0, "unregistered_manager": 0, "label_text_order_differs": 0}
     for k in PK_STATS:
         PK_STATS[k] = 0
     for ci, case in enumerate(cases):
@@ -1041,6 +1066,8 @@ def _run(chk, base):
         for k in kinds:
             dist[k] += 1
         dist["compressed" if case["compress"] else "plain"] += 1
+        dist["unregistered_manager"] += sum(1 for i in case["instances"] if "nosuch" in i["sms"])
+        dist["label_text_order_differs"] += int(case["spec"]["start"] in (9.0, -2.0, 99.0, 5.0) and case["spec"]["dt"] in (1.0, 0.5))
         dist["non_dyadic"] += 1 if Fraction(case["spec"]["dt"]).denominator > 1024 or Fraction(case["spec"]["start"]).denominator > 1024 else 0
         dist["non_normal_settings"] += sum(1 for i in case["instances"] for s_ in i["steps"] + i.get("extra", [])
                                            if s_["k"] == "set" and prune(s_["settings"]) != s_["settings"])
